@@ -86,6 +86,32 @@ func text(name string, n int) []byte {
 	return []byte(sb.String()[:n])
 }
 
+// Changelog is a chglog file with two entries.
+const Changelog = `- semver: "1.1.0-1"
+  date: "2009-12-08T22:00:00Z"
+  packager: "Jane Roe <jane@example.com>"
+  urgency: "low"
+  distribution: "stable"
+  deb:
+    urgency: medium
+    distributions:
+      - bookworm
+  changes:
+    - note: "second release note one"
+    - note: "second release note two"
+- semver: "1.0.0-1"
+  date: "2009-11-10T23:00:00Z"
+  packager: "Jane Roe <jane@example.com>"
+  urgency: "low"
+  distribution: "stable"
+  deb:
+    urgency: medium
+    distributions:
+      - bookworm
+  changes:
+    - note: "first release note"
+`
+
 // T0 is the base instant; every fixture mtime lies in 2001..2005.
 var T0 = time.Date(2001, 2, 3, 4, 5, 6, 0, time.UTC)
 
@@ -125,6 +151,7 @@ func Spec(big int) []Node {
 		{Rel: "doc/README", Kind: "file", Mode: 0o644, Data: text("readme", 120)},
 		{Rel: "doc/LICENSE", Kind: "file", Mode: 0o644, Data: text("license", 130)},
 		{Rel: "doc/manual.txt", Kind: "file", Mode: 0o644, Data: text("manual", 140)},
+		{Rel: "changelog.yaml", Kind: "file", Mode: 0o644, Data: []byte(Changelog)},
 	}
 	for i := range ns {
 		ns[i].MTime = mt(i + 1)
